@@ -12,7 +12,7 @@ corresponding atoms with the pattern's coefficient text, superseded structure te
 removed atoms gone, nothing else) and the same again on the LAMMPS file written from the result.
 Plus the documented Example-3 workflow on the real files in docs/examples.
 """
-import io, os
+import io, os, itertools
 import numpy as np
 from mc.checks.common import *
 from mc.checks import C09 as B
@@ -20,6 +20,7 @@ from mc.checks.C09 import Model as BaseModel, file_view, pattern
 from mc.checks.replacelib import REC, explorer, shared_map
 from mc.engine import stategraph as SG
 from mc.engine.stategraph import Violation
+from mc.engine.choices import Divergence
 from mc.engine.run import REPO
 from mc.ref import lammps as RL
 from mofun import replace_pattern_in_structure, find_pattern_in_structure
@@ -43,6 +44,7 @@ PAIRS = [
     ('O -> O-H (retained + bonded inserted atom)', 'O', ['O', 'H'], [0 * STEP, (0.3, 0.9, 0.1)], [(1, 0)], [], [], []),
     ('C-N-O-C -> same 4 atoms with dihedral and improper reversed', 'CNOC', ['C', 'N', 'O', 'C'], [0 * STEP, 1 * STEP, 2 * STEP, 3 * STEP], [(0, 1)], [], [(3, 2, 1, 0)], [(3, 2, 0, 1)]),
     ('C-N-O -> O, N, C listed in reverse with a bond and an angle', 'CNO', ['O', 'N', 'C'], [2 * STEP, 1 * STEP, 0 * STEP], [(0, 1)], [(0, 1, 2)], [], []),
+    ('C-N-O -> same elements, O displaced by 0.03 A (not the same atom) with a bond to it', 'CNO', ['C', 'N', 'O'], [0 * STEP, 1 * STEP, 2 * STEP + np.array([0.0, 0.03, 0.0])], [(1, 2)], [], [], []),
 ]
 SEARCH = {'CNO': ['C', 'N', 'O'], 'NOC': ['N', 'O', 'C'], 'O': ['O'], 'CNOC': ['C', 'N', 'O', 'C']}
 KF_SIG = 'CIF-workflow:pair-table-misaligned'
@@ -89,11 +91,16 @@ class Model(BaseModel):
         for pi in range(len(PAIRS)):
             for ra in (0, 1):
                 out.append(['repl', pi, ra])
+        # partial replacement that still selects every match (fraction 0.99 of 2 matches = 2), in both sample orders
+        for pi in (0, 3, 7):
+            for ans in (0, 1):
+                out.append(['repl', pi, 0, 0.99, ans])
         return out
 
     def apply(self, st, op, step):
         a = st['a'].copy(); ref = st['ref'].copy()
-        _, pi, ra = op
+        pi, ra = op[1], op[2]
+        frac_, ans = (op[3], op[4]) if len(op) > 3 else (1.0, None)
         name, skey, rel, rpos, *_ = PAIRS[pi]
         sel = SEARCH[skey]
         sp = Atoms(elements=sel, positions=np.array([j * STEP for j in range(len(sel))]) + OFFP)
@@ -101,7 +108,10 @@ class Model(BaseModel):
         civ = st['civ'] or (len(a.atom_types) > 0 and len(a.pair_coeffs) == 0 and len(rp.atom_types) > 0 and len(rp.pair_coeffs) > 0)
         REC.pop('last', None)
         ex = explorer(dict(seed=0, tier=self.tier))
-        (res, err), trace = ex.run(lambda: call(replace_pattern_in_structure, a, sp, rp, replace_all=bool(ra)), ())
+        try:
+            (res, err), trace = ex.run(lambda: call(replace_pattern_in_structure, a, sp, rp, replace_all=bool(ra), replace_fraction=frac_), () if ans is None else (ans,))
+        except Divergence:
+            raise SG.Disabled()              # this sample answer does not exist in this state (fewer than two matches)
         rec = REC.get('last')
         if rec is not None:
             matches = [tuple(int(i) for i in t) for t in rec[0]]
@@ -112,6 +122,11 @@ class Model(BaseModel):
                 raise SG.Disabled()          # nothing to replace: not an interesting transition
         if err:
             raise Violation('no-result', 'exc:' + exc_sig(err), '%r (%s) raised %r' % (op, name, err[0]))
+        if ans is not None:
+            pts = [t for t in trace if t[0].startswith('sample')]
+            if len(pts) != 1 or len(matches) != 2 or not pts[0][0].startswith('sample-ordered 2 of 2'):
+                raise SG.Disabled()
+            matches = [matches[i] for i in list(itertools.permutations(range(2), 2))[pts[0][2]]]
         sh = shared_map(sel, np.array([j * STEP for j in range(len(sel))]), rel, np.array(rpos, float).reshape(-1, 3)) if rel else {}
         uid0 = 10000 * (step + 1)
         nins = ref.replace(matches, (lambda mi: RefStructure.of(rp, uid0=uid0 + 100 * mi, origin=uid0)) if rel else (lambda mi: None), sh, bool(ra))
@@ -235,13 +250,13 @@ def run(sc, ctx):
         out['evals'] = len(sc['history']); out['compared'] = out['evals']
         if bad:
             v = bad[1]
-            out['violations'].append(viol(v.clause, v.sig, 'history %r from "%s": step %d: %s' % ([PAIRS[o[1]][0] + (' (replace_all)' if o[2] else '') for o in sc['history']], INITS[sc['init']], bad[0], v.msg), sc))
+            out['violations'].append(viol(v.clause, v.sig, 'history %r from "%s": step %d: %s' % ([PAIRS[o[1]][0] + (' (replace_all)' if o[2] else '') + (' (fraction %g, sample answer %d)' % (o[3], o[4]) if len(o) > 3 else '') for o in sc['history']], INITS[sc['init']], bad[0], v.msg), sc))
         return out
     seen, viols = SG.bfs(m, sc['init'], [sc['first']], m.depth, stats, max_violations=3)
     out['hashes'] = seen; out['evals'] = stats['transitions']; out['compared'] = stats['transitions'] + stats['replays']
     out['violating_transitions'] = stats['violating_transitions']; out['max_depth'] = stats['max_depth']; out['disabled_transitions'] = stats.get('disabled', 0)
     for hist, v in viols:
-        out['violations'].append(viol(v.clause, v.sig, 'history %r from "%s": %s' % ([PAIRS[o[1]][0] + (' (replace_all)' if o[2] else '') for o in hist], INITS[sc['init']], v.msg), dict(init=sc['init'], history=hist)))
+        out['violations'].append(viol(v.clause, v.sig, 'history %r from "%s": %s' % ([PAIRS[o[1]][0] + (' (replace_all)' if o[2] else '') + (' (fraction %g, sample answer %d)' % (o[3], o[4]) if len(o) > 3 else '') for o in hist], INITS[sc['init']], v.msg), dict(init=sc['init'], history=hist)))
     out['outcomes']['init=%d pair=%d' % (sc['init'] % len(KINDS6), sc['first'][1])] = 1
     out['nontrivial_hashes'] = set(seen)       # distinct states, counted once across scenarios
     if sc['init'] == 0 and sc['first'] == ['repl', 0, 0]:
